@@ -33,7 +33,7 @@ FLOORS = {"quick": {k: 1 for k in [
     "audits", "lookups", "set_new", "set_overwrite", "set_refused_key_is_prefix", "set_refused_key_is_extension",
     "delete_present", "delete_absent", "dsub_present", "dsub_absent", "old_roots_reread", "db_writes_checked",
     "split_000", "split_001", "split_010", "split_011", "split_100", "split_101", "split_110", "split_111",
-    "collapse_sibling_kv", "collapse_sibling_other"]}}
+    "collapse_sibling_kv", "collapse_sibling_other", "dict_syntax_ops", "fork_steps"]}}
 FLOORS["thorough"] = dict(FLOORS["quick"])
 
 
@@ -136,6 +136,22 @@ def run_case(case, ctx):
             raise Violation(tv.monitor, tv.detail)
         ref = audit(t, db, model, rnd, ctx)
         roots.append((t.root_hash, dict(model)))
+        opi = len(roots) - 1
+        if case.get("fork_at") == opi:
+            # a fork: a shallow copy of the trie object (same database, same root, independent
+            # afterwards) runs ahead through the next operations; the original, which has not
+            # moved, must go on answering for its own contents, and so must the fork for its
+            import copy
+            fork, fmodel = copy.copy(t), dict(model)
+            for fop in case["ops"][opi + 1: opi + 1 + case.get("fork_len", 4)]:
+                be.apply(fork, fmodel, fop, ctx)
+                audit(fork, db, fmodel, rnd, ctx)
+                audit(t, db, model, rnd, ctx)
+                ctx.count("fork_steps")
+            audit(fork, db, fmodel, rnd, ctx)
+            if db.pending_trace_violation is not None:
+                tv = db.pending_trace_violation
+                raise Violation(tv.monitor, tv.detail)
         if len(model) >= 2:
             ctx.shape(ref.shape())
     for root, m in roots:
@@ -163,6 +179,9 @@ def run_shard(ctx):
         else:
             case = be.gen_ops(rnd, rnd.randint(1, 14 if ctx.tier == "quick" else 40))
         case["pseed"] = rnd.randrange(1 << 30)
+        if rnd.random() < 0.25 and len(case["ops"]) >= 3:
+            case["fork_at"] = rnd.randrange(len(case["ops"]) - 1)
+            case["fork_len"] = rnd.randint(1, 6)
         if i == 1:
             ctx.sample(case)
         run_case_guarded(mod, case, ctx)
